@@ -24,7 +24,8 @@
      poolclose / shutdown   ConnectionPool.Close() / Shutdown()                                   *)
 EXTENDS Integers, Sequences, FiniteSets, TLC, Json
 
-CONSTANTS Kind,       \* "xmux" | "h2"
+CONSTANTS Kind,       \* "xmux" | "h2" | "bind" (xprotocol poolBinding: one client per downstream connection,
+                      \*   index = downstream connection; client and downstream connection are closed together)
           NConns, NStreams, NIdx,
           MaxReqs,    \* set of max_requests values (0 = unlimited)
           MaxOps,
@@ -39,7 +40,8 @@ vars == <<maxReq, m, last, hist>>
 
 M0 == [cst |-> [c \in Conns |-> "new"], ga |-> {}, slot |-> [i \in Idx |-> 0],
        son |-> [s \in Streams |-> 0], live |-> {}, ow |-> {}, cnt |-> [c \in Conns |-> 0],
-       nstream |-> 0, dialled |-> 0, req |-> 0, act |-> 0, cact |-> 0, shut |-> FALSE]
+       nstream |-> 0, dialled |-> 0, req |-> 0, act |-> 0, cact |-> 0, shut |-> FALSE,
+       bound |-> [c \in Conns |-> 0], dclosed |-> {}]      \* binding pool: downstream connection of a client; closed downstream connections
 
 Open(q) == {c \in Conns : q.cst[c] = "open"}
 On(q, c) == {s \in q.live : q.son[s] = c}
@@ -52,7 +54,17 @@ End(q, S) == [q EXCEPT !.live = @ \ S, !.req = @ - Cardinality(S), !.act = @ - C
 CloseConn(q, c) == [q EXCEPT !.cst[c] = "closed", !.cact = @ - 1]
 (* the connection is gone: its streams end, the slot that names it is cleared unless it was going away
    (then the slot may already name its successor) *)
+RECURSIVE CloseSet(_, _)
+CloseSet(q, S) == IF S = {} THEN q ELSE
+                  LET c == CHOOSE x \in S : TRUE IN
+                  CloseSet([CloseConn(End(q, On(q, c)), c) EXCEPT !.slot = [i \in Idx |-> IF @[i] = c THEN 0 ELSE @[i]]], S \ {c})
+(* the downstream connection i closes: every client bound to it is closed *)
+DClose(q, i) == [CloseSet(q, {c \in Open(q) : q.bound[c] = i}) EXCEPT !.dclosed = @ \cup {i}]
 Gone(q, c) ==
+  IF Kind = "bind" THEN
+       IF c \in q.ga /\ On(q, c) = {} THEN CloseSet(q, {c})      \* a drained going-away client leaves its downstream alone
+       ELSE DClose(q, q.bound[c])                                \* otherwise both ends go together
+  ELSE
   LET e == CloseConn(End(q, On(q, c)), c) IN
   IF "DeleteClientInGoAway" \in Defects /\ c \in q.ga
   THEN [e EXCEPT !.slot = [i \in Idx |-> 0]]           \* deletes whatever client the index holds now
@@ -73,7 +85,15 @@ Admit(q, i, oneway, mr) ==
                  ELSE [q EXCEPT !.nstream = s, !.son[s] = c, !.ow = @ \cup {s}], "ok", s, c)}
        ELSE {Out([q EXCEPT !.nstream = s, !.son[s] = c, !.live = @ \cup {s}, !.req = @ + 1, !.act = @ + 1,
                            !.cnt[c] = @ + 1], "ok", s, c)}
+StepNewBind(q, i, up, oneway, mr) ==
+  IF i \in q.dclosed THEN {}
+  ELSE IF ~CanReq(q, mr) THEN {Out(q, "overflow", 0, 0)}          \* tested before a client is looked up or dialled
+  ELSE IF q.slot[i] # 0 THEN Admit(q, i, oneway, mr)
+  ELSE IF ~up THEN {Out(q, "connfail", 0, 0)}
+  ELSE IF q.dialled >= NConns THEN {}
+  ELSE Admit([Dialled(q, i) EXCEPT !.bound[q.dialled + 1] = i], i, oneway, mr)
 StepNewAt(q, i, up, oneway, mr) ==
+  IF Kind = "bind" THEN StepNewBind(q, i, up, oneway, mr) ELSE
   LET c0 == q.slot[i]
       stale == c0 # 0 /\ c0 \in q.ga /\ "GoAwayKeepsAccepting" \notin Defects
       q1 == IF stale /\ Kind = "h2" THEN [q EXCEPT !.slot[i] = 0] ELSE q     \* h2 drops the going-away client first
@@ -92,19 +112,27 @@ StepEnd(q, s, counted) ==
       e == IF counted THEN End(q, {s}) ELSE [q EXCEPT !.live = @ \ {s}, !.cnt[c] = @ - 1]
   IN {Out(Drain(e, c), "ok", s, c)}
 
-StepGoAway(q, c) == IF q.cst[c] # "open" \/ c \in q.ga THEN {} ELSE
-                    {Out(Drain([q EXCEPT !.ga = @ \cup {c}], c), "ok", 0, c)}
+GoAwayOn(q, c) == LET g == [q EXCEPT !.ga = @ \cup {c}] IN
+                  Drain(IF Kind = "bind" THEN [g EXCEPT !.slot = [i \in Idx |-> IF @[i] = c THEN 0 ELSE @[i]]] ELSE g, c)
+StepGoAway(q, c) == IF q.cst[c] # "open" \/ c \in q.ga THEN {} ELSE {Out(GoAwayOn(q, c), "ok", 0, c)}
+RECURSIVE GoAwayAll(_, _)
+GoAwayAll(q, S) == IF S = {} THEN q ELSE LET c == CHOOSE x \in S : TRUE IN GoAwayAll(GoAwayOn(q, c), S \ {c})
 StepGone(q, c) == IF q.cst[c] # "open" THEN {} ELSE {Out(Gone(q, c), "ok", 0, c)}
 RECURSIVE GoneAll(_, _)
-GoneAll(q, S) == IF S = {} THEN q ELSE LET c == CHOOSE x \in S : TRUE IN GoneAll(Gone(q, c), S \ {c})
+GoneAll(q, S) == IF S = {} THEN q ELSE LET c == CHOOSE x \in S : TRUE IN
+                   GoneAll(IF q.cst[c] = "open" THEN Gone(q, c) ELSE q, S \ {c})     \* closing one may take others with it
 (* Close() closes the connections the pool designates; connections that are going away and only
    drain their last streams may be closed with them or left to finish *)
 StepPoolClose(q) == LET des == {q.slot[i] : i \in Idx} \cap (Open(q) \ q.ga) IN
                     {Out(GoneAll(q, des \cup D), "ok", 0, 0) : D \in SUBSET (Open(q) \cap q.ga)}
-StepShutdown(q) == {Out(IF Kind = "xmux" THEN [q EXCEPT !.shut = TRUE] ELSE q, "ok", 0, 0)}
+StepShutdown(q) == {Out(CASE Kind = "xmux" -> [q EXCEPT !.shut = TRUE]
+                          [] Kind = "bind" -> GoAwayAll(q, {q.slot[i] : i \in Idx} \cap Open(q))   \* every client goes away
+                          [] OTHER -> q, "ok", 0, 0)}
+StepDClose(q, i) == IF i \in q.dclosed THEN {} ELSE {Out(DClose(q, i), "ok", 0, 0)}
 
 Step(q, o, mr) ==
-  CASE o.op = "new"       -> StepNew(q, o.up, o.oneway, mr)
+  CASE o.op = "new"       -> IF o.i = 0 THEN StepNew(q, o.up, o.oneway, mr) ELSE StepNewAt(q, o.i, o.up, o.oneway, mr)
+    [] o.op = "dclose"    -> StepDClose(q, o.i)
     [] o.op = "resp"      -> StepEnd(q, o.s, TRUE)
     [] o.op = "reset"     -> StepEnd(q, o.s, "DestroyNotCounted" \notin Defects)
     [] o.op = "rreset"    -> StepEnd(q, o.s, TRUE)
@@ -118,15 +146,18 @@ Step(q, o, mr) ==
 (* a retry re-uses the downstream context (and with it the client stream object) of an attempt that ended *)
 EndedTwoWay(q) == {s \in 1..q.nstream : s \notin q.live /\ s \notin q.ow}
 DialWouldBeTried(q) == \E i \in Idx : q.slot[i] = 0 \/ q.slot[i] \in q.ga
+NewIdx(q) == IF Kind = "bind" THEN Idx \ q.dclosed ELSE {0}
 Ops(q) ==
-     {[op |-> "new", up |-> TRUE, oneway |-> w, retry |-> r] : w \in (IF Kind = "xmux" THEN BOOLEAN ELSE {FALSE}),
-                                                               r \in (IF EndedTwoWay(q) # {} THEN BOOLEAN ELSE {FALSE})}
-  \cup (IF DialWouldBeTried(q) /\ ~q.shut THEN {[op |-> "new", up |-> FALSE, oneway |-> FALSE, retry |-> FALSE]} ELSE {})
+     {[op |-> "new", up |-> TRUE, oneway |-> w, retry |-> r, i |-> i] : w \in (IF Kind = "h2" THEN {FALSE} ELSE BOOLEAN),
+                                                               r \in (IF EndedTwoWay(q) # {} THEN BOOLEAN ELSE {FALSE}), i \in NewIdx(q)}
+  \cup (IF Kind = "bind" THEN {[op |-> "new", up |-> FALSE, oneway |-> FALSE, retry |-> FALSE, i |-> i] : i \in {j \in NewIdx(q) : q.slot[j] = 0}}
+        ELSE IF DialWouldBeTried(q) /\ ~q.shut THEN {[op |-> "new", up |-> FALSE, oneway |-> FALSE, retry |-> FALSE, i |-> 0]} ELSE {})
   \cup {[op |-> k, s |-> s] : s \in q.live, k \in (IF Kind = "h2" THEN {"resp", "reset", "rreset"} ELSE {"resp", "reset"})}
   \cup {[op |-> k, c |-> c] : c \in Open(q) \ q.ga, k \in {"goaway"}}
   \cup {[op |-> k, c |-> c] : c \in Open(q), k \in {"rclose", "garbage"}}
   \cup (IF Open(q) # {} THEN {[op |-> "poolclose"]} ELSE {})
-  \cup (IF ~q.shut /\ Kind = "xmux" THEN {[op |-> "shutdown"]} ELSE {})
+  \cup (IF (~q.shut /\ Kind = "xmux") \/ (Kind = "bind" /\ Open(q) # {}) THEN {[op |-> "shutdown"]} ELSE {})
+  \cup (IF Kind = "bind" THEN {[op |-> "dclose", i |-> i] : i \in Idx \ q.dclosed} ELSE {})
 
 Init == /\ maxReq \in MaxReqs /\ m = M0
         /\ last = [op |-> "init", res |-> "ok", s |-> 0, c |-> 0, pre |-> M0] /\ hist = <<>>
@@ -148,11 +179,14 @@ LiveOnOpen(q)   == \A s \in q.live : q.cst[q.son[s]] = "open"
 GoAwayDrains(q) == \A c \in q.ga : q.cst[c] = "open" => On(q, c) # {}
 NoOrphan(q)     == \A c \in Open(q) : c \in q.ga \/ \E i \in Idx : q.slot[i] = c
 SlotUsable(q)   == \A i \in Idx : (q.slot[i] # 0 /\ q.slot[i] \notin q.ga) => q.cst[q.slot[i]] = "open"
-MuxOK(q, mr) == TypeOKm(q) /\ CountsExact(q) /\ LiveOnOpen(q) /\ GoAwayDrains(q) /\ NoOrphan(q) /\ SlotUsable(q)
+(* binding pool: a client does not outlive its downstream connection *)
+BoundFollows(q) == \A c \in Open(q) : q.bound[c] = 0 \/ q.bound[c] \notin q.dclosed
+MuxOK(q, mr) == TypeOKm(q) /\ BoundFollows(q) /\ CountsExact(q) /\ LiveOnOpen(q) /\ GoAwayDrains(q) /\ NoOrphan(q) /\ SlotUsable(q)
                 /\ (mr # 0 => Cardinality(q.live) <= mr)
 
 InvType == TypeOKm(m)
 InvCounts == CountsExact(m)
+InvBound == BoundFollows(m)
 InvLiveOnOpen == LiveOnOpen(m)
 InvGoAwayDrains == GoAwayDrains(m)
 InvNoOrphan == NoOrphan(m)
